@@ -56,7 +56,7 @@ VARIABLES cache,    \* the manager's LRU map: <<[k |-> key, v |-> pool id], ...>
           owner,    \* 0 or the thread owning pools.lock
           th,       \* per thread: pc and locals
           pool,     \* per pool id: [k, st \in {"none","live","gone"}, closed]
-          sock,     \* per socket id: [p, role \in {"none","leased","idle","disc"}, open]
+          sock,     \* per socket id: [p, role \in {"none","leased","queued","disc"}, open]
           resp,     \* per response id: [p, s, st \in {"none","inflight","done","dropped","failed"}]
           hand,     \* per handle id: pool id the caller holds, or 0
           gen,      \* ghost, per key: how often the key has left the cache
@@ -90,18 +90,33 @@ HandUses(hs, p) == \E h \in Ids : hs[h] = p
 ThreadUses(ts, p) == \E t \in Threads : ts[t].pc # "idle" /\ ts[t].p = p
 Used(rs, hs, ts, p) == RespUses(rs, p) \/ HandUses(hs, p) \/ ThreadUses(ts, p)
 
-IdleSocks(sk, p) == {s \in Ids : sk[s].p = p /\ sk[s].role = "idle" /\ sk[s].open}
+\* The pools are created with the default maxsize = 1: the queue of a pool holds at most one
+\* connection.  A connection in the queue is normally an open keep-alive socket; it can also be a
+\* CLOSED connection object that merely occupies the slot (HTTPResponse.close() / a dropped unread
+\* response closes its connection and hands it back, src/urllib3/response.py close()).
+Queued(sk, p) == {s \in Ids : sk[s].p = p /\ sk[s].role = "queued"}
 
-\* a connection comes back from a response: queue of size 1 (the pools are created with the
-\* default maxsize) - kept when the slot is free, closed when the pool is closed or the slot taken
+\* a connection comes back from a response (_put_conn): kept when the slot is free, closed and
+\* discarded when the pool is closed or the slot is taken
 ReleaseSock(sk, pl, s) ==
     LET p == sk[s].p IN
-    IF pl[p].closed \/ IdleSocks(sk, p) # {}
+    IF pl[p].closed \/ Queued(sk, p) # {}
     THEN [sk EXCEPT ![s].role = "disc", ![s].open = FALSE]
-    ELSE [sk EXCEPT ![s].role = "idle"]
+    ELSE [sk EXCEPT ![s].role = "queued"]
 
-\* pool.close(): the sockets waiting in the queue are closed, leased ones are not touched
-CloseIdle(sk, ps) == [s \in Ids |-> IF sk[s].p \in ps /\ sk[s].role = "idle"
+\* checkout (_get_conn + the request): the queued connection if there is one - reused when it is
+\* open, replaced by a fresh socket (id `fresh`) when it is a closed one - else a fresh socket
+Checkout(sk, p, fresh) ==
+    LET q == Queued(sk, p) IN
+    IF q = {} THEN [s |-> fresh, sock |-> [sk EXCEPT ![fresh] = [p |-> p, role |-> "leased", open |-> TRUE]]]
+    ELSE LET x == CHOOSE y \in q : TRUE IN
+         IF sk[x].open THEN [s |-> x, sock |-> [sk EXCEPT ![x].role = "leased"]]
+         ELSE [s |-> fresh, sock |-> [sk EXCEPT ![x].role = "disc",
+                                               ![fresh] = [p |-> p, role |-> "leased", open |-> TRUE]]]
+
+\* pool.close() / the finalizer: the connections waiting in the queue are closed, leased ones are
+\* not touched
+CloseIdle(sk, ps) == [s \in Ids |-> IF sk[s].p \in ps /\ sk[s].role = "queued"
                                     THEN [sk[s] EXCEPT !.open = FALSE] ELSE sk[s]]
 
 \* pools that garbage collection finalizes now
@@ -224,13 +239,12 @@ Send(t) ==
        THEN /\ resp' = [resp EXCEPT ![i] = [p |-> p, s |-> 0, st |-> "failed"]]      \* ClosedPoolError
             /\ UNCHANGED sock
             /\ Log(H(th[t].kind, th[t].k, th[t].mode, i, th[t].h, p, 0, FALSE))
-       ELSE LET idle == IdleSocks(sock, p)
-                s == IF idle # {} THEN CHOOSE x \in idle : TRUE ELSE i
-                sk1 == [sock EXCEPT ![s] = [p |-> p, role |-> "leased", open |-> TRUE]] IN
+       ELSE LET co == Checkout(sock, p, i)
+                s == co.s IN
             /\ IF th[t].mode = "read"
-               THEN /\ sock' = ReleaseSock(sk1, pool, s)
+               THEN /\ sock' = ReleaseSock(co.sock, pool, s)
                     /\ resp' = [resp EXCEPT ![i] = [p |-> p, s |-> s, st |-> "done"]]
-               ELSE /\ sock' = sk1
+               ELSE /\ sock' = co.sock
                     /\ resp' = [resp EXCEPT ![i] = [p |-> p, s |-> s, st |-> "inflight"]]
             /\ Log(H(th[t].kind, th[t].k, th[t].mode, i, th[t].h, p, s, TRUE))
 
@@ -245,13 +259,13 @@ Fin(t, r) ==
     /\ UNCHANGED <<cache, np, owner, th, pool, hand, gen, got>>
     /\ Log(H("fin", NONE, NONE, r, 0, resp[r].p, resp[r].s, sock[resp[r].s].open))
 
-\* the caller drops a response object; an unread one takes its connection with it
+\* the caller drops a response object; an unread one closes its connection and hands it back
 DropR(t, r) ==
     /\ CanStart(t) /\ resp[r].st \in {"inflight", "done"}
     /\ nops' = nops + 1
     /\ resp' = [resp EXCEPT ![r].st = "dropped"]
     /\ sock' = IF resp[r].st = "inflight"
-               THEN [sock EXCEPT ![resp[r].s].role = "disc", ![resp[r].s].open = FALSE] ELSE sock
+               THEN ReleaseSock([sock EXCEPT ![resp[r].s].open = FALSE], pool, resp[r].s) ELSE sock
     /\ UNCHANGED <<cache, np, owner, th, pool, hand, gen, got>>
     /\ Log(H("dropr", NONE, NONE, r, 0, resp[r].p, resp[r].s, TRUE))
 
@@ -335,11 +349,14 @@ EvictedEventuallyCollected ==
     \A p \in Ids : (pool[p].st = "live" /\ ~IsCached(cache, p) /\ ~Used(resp, hand, th, p))
                       ~> (pool[p].st # "live" \/ Used(resp, hand, th, p))
 
-\* a pool that is still cached is never closed behind the caller's back
+\* a pool that is still cached is never closed behind the caller's back: it stays usable, and a
+\* socket of a cached pool is closed only by an operation on one of that pool's own responses
+\* (discarded on release when the queue is full, or its unread response dropped) - never by
+\* eviction of another pool, clear(), or the collector
 CachedPoolNeverClosed ==
-    \A i \in 1..Len(cache) : LET p == cache[i].v IN
-        /\ pool[p].st = "live" /\ ~pool[p].closed
-        /\ \A s \in Ids : (sock[s].p = p /\ sock[s].role = "idle") => sock[s].open
+    \A i \in 1..Len(cache) : LET p == cache[i].v IN pool[p].st = "live" /\ ~pool[p].closed
+CachedSocketsKept ==
+    [][\A s \in Ids : (sock[s].open /\ ~sock'[s].open /\ IsCached(cache', sock[s].p)) => resp' # resp]_vars
 
 \* a request / response in flight is not disturbed by eviction or clear()
 InFlightResponseFinishes ==
